@@ -14,7 +14,7 @@
 (* random layouts that differ everywhere.  Expectation: the canonical      *)
 (* program's meaning (reference semantics); the layout must not change it. *)
 (***************************************************************************)
-EXTENDS Unparse, Json
+EXTENDS Unparse, Json, FiniteSets
 
 CONSTANTS Mode      \* "single": at most one non-canonical position | "random": any
 
@@ -38,12 +38,21 @@ Progs == <<
   \* 8 logic, comparison, not, strings
   <<Let("s", Str(<<"a", "b">>)), Emit(Bin("&&", Bin("<", IntL(1), IntL(2)), Not(Par(Bin("==", Id("s"), Str(<<"x">>)))))), Text(<<"|">>), Emit(Bin("+", Id("s"), Str(<<"c">>))), Emit(Bin("||", Bool(FALSE), Id("nope")))>>,
   \* 9 contentFor / contentOf / partial with data
-  <<Code(CallB("contentFor", <<Str(<<"c">>)>>, <<Text(<<"(">>), Emit(Id("d")), Text(<<")">>)>>)), Let("o", IntL(1)), Emit(Call("contentOf", <<Str(<<"c">>), Hash(<<"d">>, <<IntL(5)>>)>>)), Emit(Call("partial", <<Str(<<"p">>), Hash(<<"d">>, <<Id("o")>>)>>))>>
+  <<Code(CallB("contentFor", <<Str(<<"c">>)>>, <<Text(<<"(">>), Emit(Id("d")), Text(<<")">>)>>)), Let("o", IntL(1)), Emit(Call("contentOf", <<Str(<<"c">>), Hash(<<"d">>, <<IntL(5)>>)>>)), Emit(Call("partial", <<Str(<<"p">>), Hash(<<"d">>, <<Id("o")>>)>>))>>,
+  \* 10 silent if / else chains followed by statements; if / else inside loop and function bodies (closing braces meet)
+  <<Let("c", Bool(FALSE)), Code(IfElse(Id("c"), <<Let("r", IntL(1))>>, <<Let("r", IntL(2))>>)), Let("u", IntL(10)), Emit(Id("u")), Emit(Id("r")),
+    Emit(For("", "v", Arr(<<IntL(1), IntL(2)>>), <<Emit(IfElse(Bin("==", Id("v"), IntL(1)), <<Text(<<"o","n","e">>)>>, <<Text(<<"o","t","h","e","r">>)>>)), Code(IfChain(Bool(FALSE), <<Let("a", IntL(1))>>, <<[c |-> Bool(TRUE), b |-> <<Let("a", IntL(2))>>]>>, <<Let("a", IntL(3))>>, TRUE)), Emit(Id("a")), Text(<<",">>)>>)),
+    Let("k", FnLit(<<"x">>, <<Code(IfElse(Id("x"), <<Let("m", IntL(7))>>, <<Let("m", IntL(8))>>)), Ret(Id("m"))>>)), Emit(Call("k", <<Bool(TRUE)>>)), Emit(Call("k", <<Bool(FALSE)>>))>>,
+  \* 11 index / call / hash forms where white space may be inserted between adjacent tokens
+  <<Let("xs", Arr(<<Str(<<"x">>), Str(<<"y">>), Str(<<"z">>)>>)), Emit(Idx(Id("xs"), IntL(1))), Let("h", Hash(<<"a">>, <<Arr(<<IntL(4), IntL(5)>>)>>)), Emit(Idx(Idx(Id("h"), Str(<<"a">>)), IntL(0))),
+    Let("f", FnLit(<<"p", "q">>, <<Ret(Bin("+", Id("p"), Id("q")))>>)), Emit(Call("f", <<IntL(1), Call("len", <<Id("xs")>>)>>)), Emit(Call("f", <<Idx(Id("xs"), IntL(0)), Idx(Id("xs"), IntL(2))>>))>>
 >>
 Parts == [p |-> <<Text(<<"{">>), Emit(Id("d")), Text(<<"}">>)>>]
 
 \* ---- layouts
 SepAlts == {"sp", "tab", "nl", "crlf", "sp2", "cmt"}
+GapAlts == {"none", "sp", "tab", "nl", "crlf", "cmt"}     \* white space inserted between two adjacent tokens
+Punct == {"(", ")", "[", "]", ",", ":", "LBR", "RBR", "{", "}"}
 EdgeAlts == SepAlts \cup {"none"}                      \* next to a tag delimiter the separator may vanish
 JoinAlts == {"keep", "nl", "semi", "sp"}
 Sep(a) == CASE a = "sp" -> <<" ">> [] a = "tab" -> <<"TAB">> [] a = "nl" -> <<"NL">> [] a = "crlf" -> <<"CR", "NL">> [] a = "sp2" -> <<" ", " ">>
@@ -58,17 +67,23 @@ Openers == {"<%", "<%=", "<%#"}
 Kinds(ts) ==
   LET inside == [i \in 1..Len(ts) |-> \E j \in 1..i : ts[j] \in Openers /\ \A k \in (j+1)..i : ts[k] # "%>"]
       opener(i) == ts[CHOOSE j \in 1..i : ts[j] \in Openers /\ \A k \in (j+1)..i : ts[k] \notin Openers]
+      \* inside a string literal: an odd number of quote tokens since the tag opened
+      quotes(i) == Cardinality({j \in 1..i : ts[j] \in {"QUOT", "BQ"} /\ \A k \in j..i : ts[k] \notin Openers})
   IN [i \in 1..Len(ts) |->
         IF ts[i] = " " /\ inside[i] THEN (IF ts[i-1] \in Openers \/ (i < Len(ts) /\ ts[i+1] = "%>") THEN "edge" ELSE "sep")
         ELSE IF ts[i] = "%>" /\ i < Len(ts) /\ ts[i+1] = "<%" /\ opener(i) = "<%" THEN "join"
         ELSE IF ts[i] = "%>" THEN "end"
+        \* a gap: this token and the next one are adjacent (no separator), one of them is punctuation, not inside a string;
+        \* the layout may put white space AFTER this token
+        ELSE IF inside[i] /\ i < Len(ts) /\ ts[i] \notin ({" ", "NL"} \cup Openers) /\ ts[i+1] \notin {" ", "%>"} /\ (ts[i] \in Punct \/ ts[i+1] \in Punct)
+                /\ quotes(i) % 2 = 0 /\ opener(i) # "<%#" THEN "gap"
         ELSE ""]
 
 VARIABLES pi, lay, pos, done,     \* program index, layout chosen so far (function position -> alternative), next position
           Toks, KS, nchanged     \* canonical tokens and their position kinds (computed once), number of non-canonical choices
 vars == <<pi, lay, pos, done, Toks, KS, nchanged>>
-Canon(k) == CASE k = "sep" -> "sp" [] k = "edge" -> "sp" [] k = "join" -> "keep" [] k = "end" -> "plain" [] OTHER -> ""
-AltsOf(k) == CASE k = "sep" -> SepAlts [] k = "edge" -> EdgeAlts [] k = "join" -> JoinAlts [] k = "end" -> {"plain", "comment"} [] OTHER -> {""}
+Canon(k) == CASE k = "sep" -> "sp" [] k = "edge" -> "sp" [] k = "join" -> "keep" [] k = "end" -> "plain" [] k = "gap" -> "none" [] OTHER -> ""
+AltsOf(k) == CASE k = "sep" -> SepAlts [] k = "edge" -> EdgeAlts [] k = "join" -> JoinAlts [] k = "end" -> {"plain", "comment"} [] k = "gap" -> GapAlts [] OTHER -> {""}
 Changed == nchanged
 
 Init == /\ pi \in 1..Len(Progs) /\ lay = <<>> /\ pos = 1 /\ done = FALSE /\ nchanged = 0
@@ -92,6 +107,7 @@ Apply(ts, ks, l, i) ==
          [] ks[i] = "join" -> IF l[i] = "keep" THEN <<ts[i]>> \o Apply(ts, ks, l, i + 1)
                               ELSE Join(l[i]) \o Apply(ts, ks, l, i + 3)          \* drops `%>`, `<%` and the space after it
          [] ks[i] = "end"  -> <<ts[i]>> \o (IF l[i] = "comment" THEN CommentTag ELSE <<>>) \o Apply(ts, ks, l, i + 1)
+         [] ks[i] = "gap"  -> <<ts[i]>> \o Sep(l[i]) \o Apply(ts, ks, l, i + 1)
          [] OTHER -> <<ts[i]>> \o Apply(ts, ks, l, i + 1)
 \* (a join position is followed by "<%" and " ": the merge separator replaces all of `" " %> <% " "`; the space before %> is a
 \*  separate edge position that keeps its own choice)
